@@ -67,6 +67,24 @@ bool build_check(const std::string& prop, const std::string& tier, CheckSpec& s,
         s.batches.push_back(mk("lq", q ? 32 : 1500, ALL, "crossrep", {}, "sender and receiver built with different back ends hash identical bytes"));
         return true;
     }
+    if (prop == "C08") {
+        s.rule = "case = one product or single pairing over reused pair records: the shape string of the call (a = affine pair, p = prepared pair, 0 suffix = pair with an identity member, in list order); non-trivial iff the list has more than one pair or contains an identity";
+        s.batches.push_back(mk("pairs", q ? 300 : 30000, FAST, "single", {}, "long-lived record arrays reused across products: slices, re-pointing, re-preparing, identities, shared prepared points"));
+        s.batches.push_back(mk("pairs", q ? 24 : 1000, {"C/portable32"}, "single", {}, "32-bit words"));
+        return true;
+    }
+    if (prop == "C03") {
+        s.rule = "case = (primitive op, output aliases first operand?, returned carry/borrow flag) for the register machine; for system histories the cases of the scenario run in lock-step; distinct by that tuple; every case executes on all five replicas with identical inputs and the logs (all written registers, flags, marshalled bytes, stream consumption) must be identical";
+        s.batches.push_back(mk("prim", q ? 200 : 20000, ALL, "crossrep", {{"ops", q ? 400 : 600}}, "layer 1: register machine over BigInt<384/768/256/512> and FpBase<384/256> primitives with boundary pair constructors, results feeding later ops"));
+        s.batches.push_back(mk("wkd", q ? 24 : 1500, ALL, "crossrep", {{"maxops", 14}}, "layer 2: WKD-IBE histories in lock-step on all replicas, same random stream"));
+        s.batches.push_back(mk("lq", q ? 16 : 1000, ALL, "crossrep", {}, "layer 2: LQ-IBE histories"));
+        s.batches.push_back(mk("sample", q ? 24 : 1500, ALL, "crossrep", {}, "layer 2: samplers, hashing, GT exponentiation (rejection decisions must agree)"));
+        s.batches.push_back(mk("enc", q ? 16 : 600, ALL, "crossrep", {}, "layer 2: encodings"));
+        s.batches.push_back(mk("pairs", q ? 16 : 600, ALL, "crossrep", {}, "layer 2: pairing products"));
+        s.batches.push_back(mk("wkd", q ? 24 : 2000, {"A/bmi2-adx"}, "flipdispatch", {{"maxops", 14}}, "layer 3: the run-time dispatch pointers of replica A are swapped between the BMI2/ADX and baseline routines at seeded yield points inside operations; transcript must equal the undisturbed run"));
+        s.batches.push_back(mk("pairs", q ? 16 : 1000, {"A/bmi2-adx"}, "flipdispatch", {}, "layer 3: dispatch flips inside Miller loops"));
+        return true;
+    }
     err = "no check registered for property " + prop;
     return false;
 }
